@@ -1,6 +1,7 @@
 package main
 
 import (
+	_ "time/tzdata"
 	"math"
 	"encoding/json"
 	"fmt"
@@ -58,6 +59,18 @@ type convInput struct {
 	Predict   int    // 0 nil, 1 linear, 2.. other gonum predictors (see newPredictor)
 	Kind      string
 	Warm      *convInput `json:",omitempty"` // a session converted first with the SAME converter value (history)
+}
+
+// zoneOf: minutes east of UTC, or (from 9990 up) a named location with daylight saving rules
+func zoneOf(code int) *time.Location {
+	names := map[int]string{9999: "Europe/London", 9998: "America/New_York", 9997: "Australia/Lord_Howe", 9996: "America/Santiago"}
+	if n, ok := names[code]; ok {
+		if l, err := time.LoadLocation(n); err == nil {
+			return l
+		}
+		return time.UTC
+	}
+	return time.FixedZone("Z", code*60)
 }
 
 func (in *convInput) startTime() (time.Time, bool) {
@@ -174,7 +187,7 @@ func (in *convInput) session() *trackaddict.Session {
 		for _, jr := range jl.Recs {
 			loc := time.UTC
 			if jr.ZoneMin != 0 {
-				loc = time.FixedZone("Z", jr.ZoneMin*60)
+				loc = zoneOf(jr.ZoneMin)
 			}
 			r := trackaddict.Record{
 				Now:   time.Duration(jr.NowMs) * time.Millisecond,
@@ -561,9 +574,10 @@ func runC11(ctx *Ctx) error {
 		genConvOpts(r, in)
 		mode := Pick(r, []int{2, 2, 2, 2, 1, 0}) // 2: OBD with updates, 1: OBD never updated, 0: no OBD columns
 		in.Laps = genSession(r, 3+r.Intn(3), 2+r.Intn(9), 1653983971000, mode, randPattern(r), 0)
-		if r.Chance(0.15) {
+		if r.Chance(0.15) || (in.Predict >= 2 && r.Chance(0.5)) {
+			// the earlier session has many fresh readings (so a predictor that keeps anything from it shows)
 			w := &convInput{Kind: "warm"}
-			w.Laps = genSession(r, 3+r.Intn(2), 6, 1553983971000, 2, randPattern(r), 0)
+			w.Laps = genSession(r, 4+r.Intn(2), 8+r.Intn(6), 1553983971000, 2, obdPattern{true, true, true, true, true, true}, 0)
 			in.Warm = w
 		}
 		addConvCase(ctx, in, fmt.Sprintf("obdmode:%d", mode), fmt.Sprintf("predict:%d", in.Predict), fmt.Sprintf("reused-converter:%v", in.Warm != nil))
@@ -587,7 +601,7 @@ func runC12(ctx *Ctx) error {
 		if r.Chance(0.3) {
 			t0 = day + int64(r.Intn(86400000))
 		}
-		zone := Pick(r, []int{0, 0, 600, -480, 840, 330})
+		zone := Pick(r, []int{0, 0, 600, -480, 840, 330, 9999, 9998, 9997, 9996})
 		in.Laps = genSession(r, 3+r.Intn(4), 1+r.Intn(5), t0, 0, obdPattern{}, zone)
 		if r.Chance(0.15) && len(in.Laps) > 2 {
 			in.Laps[1].Recs = nil // an empty first timed lap
